@@ -34,6 +34,10 @@ def canon_out(t, out):
 
 
 def json_only(j):
+    import enum
+    # (a member of an Enum with an int / str mixin is an int / str, written by its value by json.dumps: the identity
+    #  serialization of such enums is deliberate - `issubclass(cls, (int, str))` in SerializationMethodVisitor.enum)
+    if isinstance(j, enum.Enum) and isinstance(j, (int, str)): return True
     if j is None or type(j) in (bool, int, float, str): return True
     if type(j) is list: return all(json_only(x) for x in j)
     if type(j) is dict: return all(type(k) is str and json_only(v) for k, v in j.items())
